@@ -42,3 +42,89 @@ Theorem C01_attrs_present :
     /\ (t_interp t = true -> t_unreach t = true \/ In (t_file t, t_idx t, MUnreachable) known_offender_keys).
 Proof. exact Proofs.attrs_present. Qed.
 Print Assumptions C01_attrs_present.
+
+(** ** All 50 derives, through the decision layer (which impls an attribute set produces) *)
+
+Theorem C01_derive_table :
+  length all_derives = 50%nat /\ NoDup (map derive_name all_derives) /\ forall d, In d all_derives.
+Proof. exact (conj Proofs.all_derives_length (conj Proofs.derive_name_inj_on_all Proofs.all_derives_complete)). Qed.
+Print Assumptions C01_derive_table.
+
+Theorem C01_wf_all_derives_partial :
+  forall (g : generics), wf_generics g -> forall (d : derive) (i : dinput), input_ok i g ->
+    Forall (wf_header g) (headers_of d i g).
+Proof. exact Proofs.wf_all_derives. Qed.
+Print Assumptions C01_wf_all_derives_partial.
+
+Theorem C01_own_generics_only_on_the_type :
+  forall d i g, wf_generics g -> input_ok i g ->
+  forall h, In h (headers_of d i g) ->
+    (forall t, In t (header_tys h) -> ty_ok g t) /\ existsb is_input (trait_args h ++ [h_self h]) = true.
+Proof. exact Proofs.own_generics_only_on_the_type. Qed.
+Print Assumptions C01_own_generics_only_on_the_type.
+
+Theorem C01_added_bounds_in_scope :
+  forall d i g, wf_generics g -> input_ok i g ->
+  forall h, In h (headers_of d i g) ->
+    incl (header_names h) (map p_name (h_params h))
+    /\ (forall q, In q (h_params h) -> In (p_name q) (g_names g) \/ fresh_name (p_name q) = true).
+Proof. exact Proofs.added_bounds_in_scope. Qed.
+Print Assumptions C01_added_bounds_in_scope.
+
+(** ** Placement of parameters, for arbitrary (also unsorted) parameter lists *)
+
+Theorem C01_printed_lifetimes_first :
+  forall ps : list param, lts_first (map p_kind (impl_params ps)) = true.
+Proof. exact Proofs.printed_lifetimes_first. Qed.
+Print Assumptions C01_printed_lifetimes_first.
+
+Theorem C01_new_type_param_placement :
+  forall g p, p_kind p = KTy ->
+    kinds_sorted (map p_kind (g_params (add_extra_generic_type_param g p))) = true
+    /\ Permutation.Permutation (g_params (add_extra_generic_type_param g p)) (g_params g ++ [p]).
+Proof. exact Proofs.new_type_param_placement. Qed.
+Print Assumptions C01_new_type_param_placement.
+
+(** ** Free variables of what the where-clause / bound builders add *)
+
+Theorem C01_where_builder_scoped :
+  forall g ps names,
+    incl (flat_map pred_names (g_where g)) names -> incl (flat_map pred_names ps) names ->
+    incl (flat_map pred_names (g_where (add_extra_where_clauses g ps))) names.
+Proof. exact Proofs.where_builder_scoped. Qed.
+Print Assumptions C01_where_builder_scoped.
+
+Theorem C01_bound_builder_scoped :
+  forall g b names,
+    incl (flat_map param_names (g_params g)) names -> incl (bound_names b) names ->
+    incl (flat_map param_names (g_params (add_extra_ty_param_bound g b))) names.
+Proof. exact Proofs.bound_builder_scoped. Qed.
+Print Assumptions C01_bound_builder_scoped.
+
+(** ** derive(TryInto): no two generated impls target the same (selection, field types) *)
+
+Theorem C01_tryinto_keys_distinct : forall vs, keys_distinct (tryinto_keys vs) = true.
+Proof. exact Proofs.tryinto_keys_distinct. Qed.
+Print Assumptions C01_tryinto_keys_distinct.
+
+(** ** Acceptance of the documented shapes (attribute-free items) *)
+
+Theorem C01_documented_accepted : forall d fwd sh, documented d sh = true -> accepts d fwd sh = true.
+Proof. exact Proofs.documented_accepted. Qed.
+Print Assumptions C01_documented_accepted.
+
+Theorem C01_mul_forward_enum_accepted : forall o vs, accepts (DMulLike o) true (SEnum vs) = true.
+Proof. exact Proofs.mul_forward_enum_accepted. Qed.
+Print Assumptions C01_mul_forward_enum_accepted.
+
+(** ** Attribute presence, template by template *)
+
+Theorem C01_all_automatically_derived : forall t, In t impl_templates -> t_auto t = true.
+Proof. exact Proofs.all_automatically_derived. Qed.
+Print Assumptions C01_all_automatically_derived.
+
+Theorem C01_attrs_decided :
+  forall t, In t impl_templates ->
+    lacks t = [] \/ (lacks t <> [] /\ forall m, In m (lacks t) -> In (t_file t, t_idx t, m) known_offender_keys).
+Proof. exact Proofs.attrs_decided. Qed.
+Print Assumptions C01_attrs_decided.
